@@ -1,5 +1,6 @@
 import RV.Model.Diag
 import RV.Model.WHInt
+import RV.Model.TraceCom
 import RV.Driver.Util
 /-
   drv_c04: runs RV/Model/Diag.lean on IEEE doubles.  Particles are `m x y z vx vy vz`.
@@ -9,9 +10,10 @@ import RV.Driver.Util
     com    N                 parts*N            -> m x y z vx vy vz
     lf     N Na tp ignore G soft dt nsteps parts*N  -> (x y z vx vy vz)*N   (LEAPFROG + BASIC)
     merge  G potential vcx vcy vcz  part part   -> m x y z vx vy vz dE
+    tracecom N Nact dt rejected sx sy sz parts*N -> com_pos (3) com_vel (3) after one TRACE step (part2Com)
     whint  N G soft dt m0 a0x a0y a0z (m ax ay az x y z vx vy vz)*(N-1)  -> (vx vy vz)*(N-1)   (reb_whfast_interaction_step, Jacobi)
 -/
-open RV RV.Driver RV.Gravity RV.Diag RV.WHInt
+open RV RV.Driver RV.Gravity RV.Diag RV.WHInt RV.TraceCom
 
 def nat (s : String) : Nat := s.toNat?.getD 0
 
@@ -58,6 +60,12 @@ def step (toks : List String) : String :=
     let ps := parts t 6 2
     let o := merge sq (fl t[1]!) (nat t[2]! != 0) ⟨fl t[3]!, fl t[4]!, fl t[5]!⟩ ps[0]! ps[1]!
     outPart o.p ++ " " ++ hx o.dE
+  | "tracecom" :: _ =>
+    if t.size < 8 then "bad-op" else
+    let n := nat t[1]!
+    if t.size != 8 + 7*n then "bad-op" else
+    let c := part2Com (fl t[3]!) (nat t[2]!) (nat t[4]! != 0) ⟨fl t[5]!, fl t[6]!, fl t[7]!⟩ (parts t 8 n)
+    hxs [c.pos.x, c.pos.y, c.pos.z, c.vel.x, c.vel.y, c.vel.z]
   | "whint" :: _ =>
     if t.size < 9 then "bad-op" else
     let n := nat t[1]!
